@@ -320,7 +320,7 @@ func genFifo(rt *rapid.T) fifoCase {
 
 func TestFifo(t *testing.T) {
 	sec := vk.Sec("Fifo")
-	vk.Check(t, 8000, 300000, func(rt *rapid.T) {
+	vk.Check(t, 12000, 4000000, func(rt *rapid.T) {
 		c := genFifo(rt)
 		out, err := runFifo(t, c)
 		if err != nil {
